@@ -52,6 +52,15 @@
 (*             written); iaamd = "includes-action-and-meta-data":           *)
 (*             "abs" | "true" | "false",                                    *)
 (*           indices, streams: Seq(Str),                                    *)
+(*           squote: BOOLEAN the includes are written with single quotes,   *)
+(*           {{ rally.collect(parts='..') }}: not pre-expanded textually    *)
+(*           but included by the Jinja macro,                               *)
+(*           mac: Val  the first operation of the operations section has    *)
+(*           "macro-setting": {{ m.val() }} where m is a macro file pulled  *)
+(*           in with {% import "macros.j2" as m %} whose macro val() says   *)
+(*           {{ p | default(v) }} (NoVal: no such file),                    *)
+(*           corpora and document sets also have burl: "base-url" ("" = not *)
+(*           written; the set's own, else the corpus default, else none),   *)
 (*           ibody: Val  "index.number_of_shards" in the BODY FILE of the   *)
 (*           first index (NoVal: the index has no body file),               *)
 (*           tkind: "" | "composable" | "component" | "templates", tbody:   *)
@@ -92,6 +101,7 @@ CONSTANTS
     ParamSites,       \* fields that may be written as {{ p | default(v) }}
     XUses, XParams, XVals,   \* macro uses for inline operations, macro parameters and the values supplied for them
     TplKinds,         \* template sections the builder may add
+    BUrls,            \* base-url values
     NumParams, StrParams, SupVals, ReservedCand, Units, TagSeqs, PartKinds, DefectKinds,
     MaxOps, MaxChals, MaxEls, MaxParTasks, MaxCorpora, MaxDocs, MaxSup,
     MaxSize,          \* bound on the number of builder steps (things written beyond the seed)
@@ -148,14 +158,17 @@ RChal(F, ch) == [name |-> ch.name, dflt |-> ch.dflt, sched |-> [e \in 1..Len(ch.
 Resolve(F) == [form |-> F.form,
                chals |-> [c \in 1..Len(F.chals) |-> RChal(F, F.chals[c])],
                ops |-> [i \in 1..Len(F.ops) |-> [name |-> F.ops[i].name, type |-> F.ops[i].type, bulk |-> ResN(F, F.ops[i].bulk),
-                                                 xv |-> XVal(F, F.ops[i].xp), xc |-> F.ops[i].xp.comma]],
+                                                 xv |-> XVal(F, F.ops[i].xp), xc |-> F.ops[i].xp.comma,
+                                                 xm |-> IF i = 1 THEN ResN(F, F.mac) ELSE Abs]],
                corpora |-> [k \in 1..Len(F.corpora) |->
-                              [name |-> F.corpora[k].name, tidx |-> F.corpora[k].tidx, tds |-> F.corpora[k].tds,
+                              [name |-> F.corpora[k].name, burl |-> F.corpora[k].burl,
+                               tidx |-> F.corpora[k].tidx, tds |-> F.corpora[k].tds,
                                iaamd |-> F.corpora[k].iaamd,
                                docs |-> [d \in 1..Len(F.corpora[k].docs) |->
                                            [base |-> F.corpora[k].docs[d].base, ext |-> F.corpora[k].docs[d].ext,
                                             count |-> ResN(F, F.corpora[k].docs[d].count), tidx |-> F.corpora[k].docs[d].tidx,
-                                            tds |-> F.corpora[k].docs[d].tds, iaamd |-> F.corpora[k].docs[d].iaamd]]]],
+                                            tds |-> F.corpora[k].docs[d].tds, iaamd |-> F.corpora[k].docs[d].iaamd,
+                                            burl |-> F.corpora[k].docs[d].burl]]]],
                indices |-> F.indices, streams |-> F.streams, defect |-> F.defect,
                ibody |-> IF Len(F.indices) >= 1 THEN ResN(F, F.ibody) ELSE Abs,
                tkind |-> F.tkind, tbody |-> IF F.tkind = "" THEN Abs ELSE ResN(F, F.tbody)]
@@ -166,10 +179,17 @@ SideParams(F) == (IF Len(F.indices) >= 1 THEN {F.ibody.p} ELSE {}) \cup (IF F.tk
 TaskParams(t) == {t[k].p : k \in TaskNumFields} \cup {t.name.p, t.xp.p}
 ElParams(el) == {el[k].p : k \in ElNumFields} \cup UNION {TaskParams(el.tasks[i]) : i \in 1..Len(el.tasks)}
 ChalParams(ch) == UNION {ElParams(ch.sched[e]) : e \in 1..Len(ch.sched)}
-Used(F) == (UNION {ChalParams(F.chals[c]) : c \in 1..Len(F.chals)}
+\* the parameter of the imported macro file (imports are never scanned for parameters by the loader)
+MacParams(F) == IF Len(F.ops) >= 1 THEN {F.mac.p} \ {""} ELSE {}
+UsesHelpers(F) == \/ F.mac # NoVal
+                  \/ \E i \in 1..Len(F.ops) : F.ops[i].xp # NoX
+                  \/ \E c \in 1..Len(F.chals) : \E e \in 1..Len(F.chals[c].sched) :
+                        \E i \in 1..Len(F.chals[c].sched[e].tasks) : F.chals[c].sched[e].tasks[i].xp # NoX
+UsedDirect(F) == (UNION {ChalParams(F.chals[c]) : c \in 1..Len(F.chals)}
             \cup {F.ops[i].bulk.p : i \in 1..Len(F.ops)} \cup {F.ops[i].xp.p : i \in 1..Len(F.ops)}
             \cup UNION {{F.corpora[k].docs[d].count.p : d \in 1..Len(F.corpora[k].docs)} : k \in 1..Len(F.corpora)}
             \cup SideParams(F) \cup F.refs) \ {""}
+Used(F) == UsedDirect(F) \cup MacParams(F)
 \* ... and those outside of included parts
 UsedOutsideParts(F) ==
     ((IF "chals" \in F.parts THEN {} ELSE UNION {ChalParams(F.chals[c]) : c \in 1..Len(F.chals)})
@@ -177,6 +197,9 @@ UsedOutsideParts(F) ==
      \cup (IF "corpora" \in F.parts THEN {}
            ELSE UNION {{F.corpora[k].docs[d].count.p : d \in 1..Len(F.corpora[k].docs)} : k \in 1..Len(F.corpora)})
      \cup SideParams(F) \cup F.refs) \ {""}
+\* what the loader's scan for parameters sees by design: everything written in track.json, the textually expanded parts,
+\* index body / template files; NOT imported macro files and NOT parts that only the Jinja macro includes (single quotes)
+Scanned(F) == IF F.squote THEN UsedOutsideParts(F) ELSE UsedDirect(F)
 Supplied(F) == {s.p : s \in F.supN} \cup {s.p : s \in F.supS}
 
 -----------------------------------------------------------------------------
@@ -187,8 +210,9 @@ Supplied(F) == {s.p : s \in F.supN} \cup {s.p : s \in F.supS}
 OpOf(R, t) == IF t.opk = "str"
               THEN IF \E i \in 1..Len(R.ops) : R.ops[i].name = t.op
                    THEN R.ops[CHOOSE i \in 1..Len(R.ops) : R.ops[i].name = t.op]
-                   ELSE [name |-> t.op, type |-> t.op, bulk |-> Abs, xv |-> Abs, xc |-> TRUE]
-              ELSE [name |-> IF t.op = "" THEN t.type ELSE t.op, type |-> t.type, bulk |-> t.bulk, xv |-> t.xv, xc |-> t.xc]
+                   ELSE [name |-> t.op, type |-> t.op, bulk |-> Abs, xv |-> Abs, xc |-> TRUE, xm |-> Abs]
+              ELSE [name |-> IF t.op = "" THEN t.type ELSE t.op, type |-> t.type, bulk |-> t.bulk, xv |-> t.xv, xc |-> t.xc,
+                    xm |-> Abs]
 TName(R, t) == IF t.name = "" THEN OpOf(R, t).name ELSE t.name
 Eff(own, inherited) == IF own # Abs THEN own ELSE inherited
 IsSet(x) == x # Abs
@@ -265,6 +289,9 @@ Rule(r, F, R) ==
       \* where the loader's treatment of targets is its own business (L1 says nothing about these files): an index target in
       \* a track that declares data streams or vice versa (rejected), a corpus-level target without the corresponding section
       \* (ignored unless the document set repeats it)
+      \* a supplied parameter that the file uses, but only where the loader does not look for parameters (imported macro
+      \* file, part collected with single quotes): the loader reports it as unused
+      [] r = "paramOnlyInUnscanned" -> ((Supplied(F) \ Reserved) \cap Used(F)) \ Scanned(F) # {}
       [] r = "corpusTarget" -> SomeDoc(R, LAMBDA k, x : /\ ~EffIaamd(k, x)
                                                         /\ \/ DetIdx(R, k, x) # "" /\ Len(R.streams) > 0
                                                            \/ DetDs(R, k, x) # "" /\ Len(R.indices) > 0
@@ -274,7 +301,7 @@ Rule(r, F, R) ==
 L1Rules == {"dupTask", "dupChallenge", "dupCorpus", "dupOperation", "noDefault", "twoDefaults", "mixing",
             "rampUpWithoutWarmup", "rampUpGtWarmup", "unknownCompletedBy", "indicesAndDataStreams", "unusedParam",
             "reservedParam", "schemaType", "schemaMissing", "targetUndetermined"}
-L2Rules == {"rampUpOnTaskOnly", "rampUpDiffers", "corpusTarget", "taskNamedAny"}
+L2Rules == {"rampUpOnTaskOnly", "rampUpDiffers", "corpusTarget", "taskNamedAny", "paramOnlyInUnscanned"}
 Rules == L1Rules \cup L2Rules
 ViolR(F, R) == {r \in Rules : Rule(r, F, R)}
 Viol(F) == ViolR(F, Resolve(F))
@@ -286,7 +313,7 @@ Viol(F) == ViolR(F, Resolve(F))
 ExpTask(R, el, t) ==
     LET o == OpOf(R, t)  x == Timing(el, t)  n == TName(R, t) IN
     [name |-> n, op |-> [name |-> o.name, type |-> o.type, bulk |-> o.bulk,
-                         xs |-> IF o.xc THEN o.xv ELSE Abs, xb |-> IF o.xc THEN Abs ELSE o.xv],
+                         xs |-> IF o.xc THEN o.xv ELSE Abs, xb |-> IF o.xc THEN Abs ELSE o.xv, xm |-> o.xm],
      clients |-> IF IsSet(t.clients) THEN t.clients ELSE 1,
      wi |-> x.wi, it |-> x.it, wtp |-> x.wtp, tp |-> x.tp, ru |-> x.ru,
      cp |-> el.par /\ el.cb # "" /\ el.cb = n, acp |-> el.par /\ el.cb = "any",
@@ -307,6 +334,7 @@ CodeIdx(R, k, x) == IF x.tidx # "" THEN x.tidx ELSE CodeCorpusIdx(R, k)
 CodeDs(R, k, x) == IF x.tds # "" THEN x.tds ELSE CodeCorpusDs(R, k)
 ExpDoc(R, k, x, asCode) ==
     [file |-> x.base, arch |-> x.ext, count |-> x.count, iaamd |-> EffIaamd(k, x),
+     burl |-> IF x.burl # "" THEN x.burl ELSE k.burl,
      tidx |-> IF EffIaamd(k, x) THEN "" ELSE IF asCode THEN CodeIdx(R, k, x) ELSE DetIdx(R, k, x),
      tds |-> IF EffIaamd(k, x) THEN "" ELSE IF asCode THEN CodeDs(R, k, x) ELSE DetDs(R, k, x)]
 CoreR(R, asCode) == [chals |-> [c \in 1..Len(R.chals) |-> ExpChal(R, c)],
@@ -383,7 +411,7 @@ CodeR(F, R, sel) ==
     ELSE IF \E i, j \in 1..Len(R.ops) : i < j /\ R.ops[i].name = R.ops[j].name THEN Rejected("syntax")
     ELSE IF CodeChallengesError(R, 1, FALSE, {}) THEN Rejected("syntax")
     ELSE IF Supplied(F) \cap Reserved # {} THEN Rejected("config")
-    ELSE IF Supplied(F) \ (IF F.tight /\ ~MacroIncludesSeen THEN UsedOutsideParts(F) ELSE Used(F)) # {} THEN Rejected("config")
+    ELSE IF Supplied(F) \ (IF F.tight /\ ~MacroIncludesSeen THEN UsedOutsideParts(F) ELSE Scanned(F)) # {} THEN Rejected("config")
     ELSE [ok |-> TRUE, kind |-> "", core |-> CoreR(R, TRUE), extra |-> ExtraR(R, sel)]
 Code(F, sel) == CodeR(F, Resolve(F), sel)
 
@@ -439,7 +467,7 @@ ParEl(t) == [PlainEl(t) EXCEPT !.par = TRUE]
 EmptyFile(form, cname, ref) ==
     [form |-> form, chals |-> <<[name |-> cname, dflt |-> "abs", sched |-> <<PlainEl(BareTask(ref))>>]>>,
      ops |-> <<>>, corpora |-> <<>>, indices |-> <<>>, streams |-> <<>>, supN |-> {}, supS |-> {}, parts |-> {},
-     refs |-> {}, tight |-> FALSE, defect |-> NoDefect, ibody |-> NoVal, tkind |-> "", tbody |-> NoVal]
+     refs |-> {}, tight |-> FALSE, squote |-> FALSE, mac |-> NoVal, defect |-> NoDefect, ibody |-> NoVal, tkind |-> "", tbody |-> NoVal]
 
 Vals(field) == {L(n) : n \in Alpha[field]}
                \cup (IF field \in ParamSites THEN {P(q, n) : q \in NumParams, n \in Alpha[field] \ {0}} ELSE {})
@@ -460,7 +488,7 @@ SumTasks(s, n) == IF n = 0 THEN 0 ELSE SumTasks(s, n - 1) + Len(s[n].tasks)
 RECURSIVE SumChTasks(_, _)
 SumChTasks(cs, n) == IF n = 0 THEN 0 ELSE SumChTasks(cs, n - 1) + SumTasks(cs[n].sched, Len(cs[n].sched))
 RECURSIVE SumDocs(_, _)
-DocSet(x) == (IF x.tds # "" THEN 1 ELSE 0) + (IF x.iaamd # "abs" THEN 1 ELSE 0)
+DocSet(x) == (IF x.tds # "" THEN 1 ELSE 0) + (IF x.iaamd # "abs" THEN 1 ELSE 0) + (IF x.burl # "" THEN 1 ELSE 0)
 RECURSIVE SumDocSet(_, _)
 SumDocSet(ds, n) == IF n = 0 THEN 0 ELSE SumDocSet(ds, n - 1) + DocSet(ds[n])
 SumDocs(ks, n) == IF n = 0 THEN 0
@@ -469,14 +497,15 @@ SumDocs(ks, n) == IF n = 0 THEN 0
 \* number of builder steps that lead to F = number of things written beyond the minimal file
 Size(F) == SetCount(F) + (SumChTasks(F.chals, Len(F.chals)) - 1) + Len(F.ops) + SumDocs(F.corpora, Len(F.corpora))
            + Len(F.indices) + Len(F.streams) + Cardinality(F.supN) + Cardinality(F.supS) + Cardinality(F.parts)
-           + Cardinality(F.refs) + (IF F.ibody # NoVal THEN 1 ELSE 0) + (IF F.tkind # "" THEN 1 ELSE 0)
+           + Cardinality(F.refs) + (IF F.mac # NoVal THEN 1 ELSE 0) + (IF F.ibody # NoVal THEN 1 ELSE 0) + (IF F.tkind # "" THEN 1 ELSE 0)
            + (IF F.defect = NoDefect THEN 0 ELSE 1)
 
 ChalIdx == 1..Len(f.chals)
 ElIdx(c) == 1..Len(f.chals[c].sched)
 TaskIdx(c, e) == 1..Len(f.chals[c].sched[e].tasks)
 
-CandAddOperation == IF Len(f.ops) < MaxOps THEN {[f EXCEPT !.ops = Append(@, o)] : o \in OpDefs} ELSE {}
+CandAddOperation == IF Len(f.ops) < MaxOps
+                    THEN {[f EXCEPT !.ops = Append(@, o)] : o \in {o \in OpDefs : f.squote => o.xp = NoX}} ELSE {}
 CandAddChallenge == IF f.form = "challenges" /\ Len(f.chals) < MaxChals
                     THEN {[f EXCEPT !.chals = Append(@, [name |-> n, dflt |-> d, sched |-> <<PlainEl(BareTask(ref))>>])] :
                               n \in CNames, d \in {"abs", "true", "false"}, ref \in ChalOps}
@@ -501,7 +530,7 @@ CandSetTaskField ==
               THEN {[f EXCEPT !.chals[c].sched[e].tasks[i].name = [v |-> n, p |-> ""]] : n \in TNames}
                    \cup {[f EXCEPT !.chals[c].sched[e].tasks[i].name = [v |-> n, p |-> q]] : n \in TNames, q \in StrParams}
               ELSE {})
-        \cup (IF t.opk = "inl" /\ t.xp = NoX THEN {[f EXCEPT !.chals[c].sched[e].tasks[i].xp = x] : x \in XUses} ELSE {})
+        \cup (IF t.opk = "inl" /\ t.xp = NoX /\ ~f.squote THEN {[f EXCEPT !.chals[c].sched[e].tasks[i].xp = x] : x \in XUses} ELSE {})
         \cup (IF t.tags = <<>> THEN {[f EXCEPT !.chals[c].sched[e].tasks[i].tags = g] : g \in TagSeqs} ELSE {})
         \cup (IF t.tput # NoVal /\ t.unit = "" THEN {[f EXCEPT !.chals[c].sched[e].tasks[i].unit = u] : u \in Units} ELSE {})
       : i \in TaskIdx(c, e)} : e \in ElIdx(c)} : c \in ChalIdx}
@@ -514,7 +543,7 @@ CandSetParallelField ==
                    ELSE {})
       : e \in ElIdx(c)} : c \in ChalIdx}
 CandAddCorpus == IF Len(f.corpora) < MaxCorpora
-                 THEN {[f EXCEPT !.corpora = Append(@, [name |-> n, tidx |-> "", tds |-> "", iaamd |-> "abs", docs |-> <<d>>])] :
+                 THEN {[f EXCEPT !.corpora = Append(@, [name |-> n, burl |-> "", tidx |-> "", tds |-> "", iaamd |-> "abs", docs |-> <<d>>])] :
                           n \in KNames, d \in DocFiles}
                  ELSE {}
 CandAddDocs == UNION {IF Len(f.corpora[k].docs) < MaxDocs
@@ -525,7 +554,9 @@ CandSetCorpusField ==
     UNION {(IF f.corpora[k].tidx = "" THEN {[f EXCEPT !.corpora[k].tidx = n] : n \in INames} ELSE {})
            \cup (IF f.corpora[k].tds = "" THEN {[f EXCEPT !.corpora[k].tds = n] : n \in SNames} ELSE {})
            \cup (IF f.corpora[k].iaamd = "abs" THEN {[f EXCEPT !.corpora[k].iaamd = b] : b \in {"true", "false"}} ELSE {})
-           \cup UNION {(IF f.corpora[k].docs[d].tds = "" THEN {[f EXCEPT !.corpora[k].docs[d].tds = n] : n \in SNames} ELSE {})
+           \cup (IF f.corpora[k].burl = "" THEN {[f EXCEPT !.corpora[k].burl = u] : u \in BUrls} ELSE {})
+           \cup UNION {(IF f.corpora[k].docs[d].burl = "" THEN {[f EXCEPT !.corpora[k].docs[d].burl = u] : u \in BUrls} ELSE {}) \cup
+                       (IF f.corpora[k].docs[d].tds = "" THEN {[f EXCEPT !.corpora[k].docs[d].tds = n] : n \in SNames} ELSE {})
                        \cup (IF f.corpora[k].docs[d].iaamd = "abs"
                              THEN {[f EXCEPT !.corpora[k].docs[d].iaamd = b] : b \in {"true", "false"}} ELSE {})
                        : d \in 1..Len(f.corpora[k].docs)}
@@ -544,13 +575,20 @@ CandSupplyParam ==
          \cup {[f EXCEPT !.supN = @ \cup {[p |-> q, v |-> x]}] : q \in (XParams \cap Used(f)) \ Supplied(f), x \in XVals}
          \cup {[f EXCEPT !.supS = @ \cup {[p |-> q, v |-> x]}] : q \in StrParams \ Supplied(f), x \in TNames}
 CandUseReserved == {[f EXCEPT !.refs = @ \cup {q}] : q \in ReservedCand \ f.refs}
+\* how the includes are written is chosen with the first part: with blanks, tight, or with single quotes (then the Jinja
+\* macro includes the part: no second-level parts, and no helper macros, which are not visible inside such a part)
 CandSplitIntoPart ==
-    {[f EXCEPT !.parts = @ \cup {k}, !.tight = tg] : tg \in (IF f.parts = {} THEN BOOLEAN ELSE {f.tight}),
+    {[f EXCEPT !.parts = @ \cup {k}, !.tight = st[1], !.squote = st[2]] :
+        st \in (IF f.parts = {} THEN {<<FALSE, FALSE>>, <<TRUE, FALSE>>} \cup (IF UsesHelpers(f) THEN {} ELSE {<<FALSE, TRUE>>})
+                ELSE {<<f.tight, f.squote>>}),
         k \in {k \in PartKinds \ f.parts :
         CASE k = "ops" -> Len(f.ops) > 0 [] k = "chals" -> f.form = "challenges" [] k = "corpora" -> Len(f.corpora) > 0
           \* a fragment of a part moves into a second-level part (nested include)
-          [] k = "opsN" -> "ops" \in f.parts [] k = "sched" -> "chals" \in f.parts [] k = "docs" -> "corpora" \in f.parts
+          [] k = "opsN" -> "ops" \in f.parts /\ ~f.squote [] k = "sched" -> "chals" \in f.parts /\ ~f.squote
+          [] k = "docs" -> "corpora" \in f.parts /\ ~f.squote
           [] OTHER -> FALSE}}
+\* the imported macro file
+CandSetMacro == IF Len(f.ops) >= 1 /\ f.mac = NoVal /\ ~f.squote THEN {[f EXCEPT !.mac = x] : x \in Vals("mac")} ELSE {}
 \* schema-level defects, at every position where the kind of defect can occur
 DefectAt(k) ==
     CASE k \in {"clientsStr", "nameNum", "taskNoOp"} ->
@@ -601,6 +639,7 @@ AddIndex == \E F2 \in CandAddIndex : Take(F2)
 AddStream == \E F2 \in CandAddStream : Take(F2)
 SupplyParam == \E F2 \in CandSupplyParam : Take(F2)
 SplitIntoPart == \E F2 \in CandSplitIntoPart : Take(F2)
+SetMacro == \E F2 \in CandSetMacro : Take(F2)
 UseReserved == \E F2 \in CandUseReserved : Take(F2)
 BreakSchema == \E F2 \in CandDefect : Take(F2)
 
@@ -609,6 +648,6 @@ Init == /\ f \in Seeds
         /\ lim = Size(f) + MaxSize
 Next == \/ AddOperation \/ AddChallenge \/ SetDefault \/ AddTask \/ AddParallel \/ AddParallelTask
         \/ SetTaskField \/ SetParallelField \/ AddCorpus \/ AddDocs \/ SetCorpusField \/ SetSideFile \/ AddIndex \/ AddStream
-        \/ SupplyParam \/ UseReserved \/ SplitIntoPart \/ BreakSchema
+        \/ SupplyParam \/ UseReserved \/ SplitIntoPart \/ SetMacro \/ BreakSchema
 Spec == Init /\ [][Next]_vars
 =============================================================================
